@@ -17,7 +17,7 @@ pub static DEF: PropDef = PropDef {
     level: "exploration",
     total: |t| t.pick(512, 9600),
     run,
-    rule: "compute_checksum build: for generated IPv4 headers, UDP datagrams and TCP segments (C08's generators: all field ranges, payloads even/odd/empty/maximal) the emitted checksum must verify under an independent RFC 1071 implementation (sum over header [+pseudo header +payload] including the checksum field folds to 0xFFFF) and equal the reference implementation's; the decoders must accept the reference packets; every single-bit flip and sampled double-bit flips of emitted packets that change the one's-complement sum must be rejected; plus constructed packets whose sum before complementing is 0xFFFF (one free 16-bit field solved for). Non-trivial = distinct (protocol, payload parity/size class, flip class) tuple.",
+    rule: "compute_checksum build: for generated IPv4 headers, UDP datagrams and TCP segments (C08's generators: all field ranges, payloads even/odd/empty/maximal) the emitted checksum must verify under an independent RFC 1071 implementation (sum over header [+pseudo header +payload] including the checksum field folds to 0xFFFF) and equal the reference implementation's; the decoders must accept the reference packets; every single-bit flip and sampled double-bit flips of emitted packets that change the one's-complement sum must be rejected; plus constructed packets whose sum before complementing is 0xFFFF (one free 16-bit field solved for); plus live connections: C01's schedules (loss, duplication, reordering, timers, closes) on a real TCB pair, every segment entering the network (first transmissions, retransmissions, pure ACKs, SYN/FIN/RST) serialised and checked with the independent sum and the stack's own decoder. Non-trivial = distinct (protocol, payload parity/size class, flip class) tuple.",
     assumptions: &[
         "model/wire.rs::rfc1071 and etherparse are the independent references (cross-checked on every case)",
         "a UDP checksum of zero means 'no checksum' (RFC 768) and is not used as a reference-produced checksum",
@@ -246,6 +246,74 @@ fn tcp(d: &mut Delta, rng: &mut impl Rng, k: u64, force_ffff: bool) {
     report(d, r, "tcp", witness);
 }
 
+/// Segments as a live connection emits them (first transmissions, retransmissions, pure ACKs, SYN, FIN, RST):
+/// one of C01's schedules on a real TCB pair, in half of them with closes; every segment that enters the
+/// network is serialised and checked with the independent sum and with the stack's own decoder.
+fn live_tcp(d: &mut Delta, rng: &mut rand::rngs::SmallRng, k: u64, case: u64) {
+    use crate::props::c01::{apply, gen_params, Decision};
+    use crate::tcbsim::{addr, flag_names, Pair};
+    d.evaluations += 1;
+    let mut pr = gen_params(rng, 120);
+    if rng.chance(1, 2) {
+        let at = rng.gen_range(0..=pr.decisions.len());
+        pr.decisions.insert(at, Decision::Close(rng.gen_range(0..2)));
+    }
+    let mut p = Pair::new(pr.style, pr.iss_a, pr.iss_b, pr.mtu);
+    let mut seen: std::collections::HashSet<u64> = Default::default();
+    let mut checked = 0u64;
+    let mut bad: Option<(String, String, serde_json::Value)> = None;
+    let mut steps: Vec<String> = vec!["open".into()];
+    let n = pr.decisions.len();
+    for i in 0..=n + 12 {
+        if i > 0 {
+            if i <= n {
+                apply(&mut p, pr.decisions[i - 1]);
+                steps.push(pr.decisions[i - 1].show());
+            } else {
+                p.fair_round(101, true);
+                steps.push("fair".into());
+            }
+        }
+        if p.panic.is_some() {
+            break; // C01/C17 judge panics of the TCB; here only emitted bytes are judged
+        }
+        for f in &p.net {
+            if f.injected || !seen.insert(f.uid) {
+                continue;
+            }
+            let from = 1 - f.to;
+            let (src, dst) = (addr(from).to_u32().to_be_bytes(), addr(f.to).to_u32().to_be_bytes());
+            let mut bytes = f.seg.header.serialize();
+            bytes.extend_from_slice(&f.seg.text.to_vec());
+            let pseudo = wire::pseudo(src, dst, 6, bytes.len() as u16);
+            let sum = wire::ones_sum(&[&pseudo, &bytes]);
+            let fl = u8::from(f.seg.header.ctl);
+            if sum != 0xffff {
+                bad = Some((
+                    "tcp:live-segment-checksum-does-not-verify".into(),
+                    format!("a [{}] segment of {} payload bytes emitted after step {} (`{}`) sums to {sum:#06x} over pseudo header and segment, not 0xffff", flag_names(fl), f.seg.text.len(), steps.len() - 1, steps.last().unwrap()),
+                    json!({"segment_header": hex(&bytes[..20.min(bytes.len())]), "from": from}),
+                ));
+                break;
+            }
+            if let Err(e) = TcpHeader::from_bytes(bytes.iter().cloned(), bytes.len(), addr(from), addr(f.to)) {
+                bad = Some(("tcp:live-segment-rejected-by-own-decoder".into(), format!("a [{}] segment emitted after step {} is rejected by TcpHeader::from_bytes: {e}", flag_names(fl), steps.len() - 1), json!({"segment_header": hex(&bytes[..20.min(bytes.len())])})));
+                break;
+            }
+            checked += 1;
+            d.nontrivial(fnv_str(&format!("live|{}|{}|{}", flag_names(fl), f.seg.text.len().min(3), f.seg.text.len() % 2)));
+        }
+        if bad.is_some() {
+            break;
+        }
+    }
+    d.tally("live_tcp_segments_checked", checked);
+    d.tally("live_tcp_retransmitted_data_segments", p.sides[0].retransmitted_data_segments + p.sides[1].retransmitted_data_segments);
+    if let Some((sig, what, w)) = bad {
+        d.violation(sig, what, json!({"open": format!("{:?}", pr.style), "iss": [pr.iss_a, pr.iss_b], "mtu": pr.mtu, "steps": steps.iter().rev().take(40).rev().collect::<Vec<_>>(), "detail": w, "scenario": k, "case": case}));
+    }
+}
+
 fn run(env: &Env, k: u64, d: &mut Delta) {
     if !cs() {
         // wrong build: nothing can be observed
@@ -259,6 +327,9 @@ fn run(env: &Env, k: u64, d: &mut Delta) {
         ipv4(d, &mut rng, force);
         udp(d, &mut rng, force);
         tcp(d, &mut rng, k * 100 + i, force);
+        if i % 4 == 0 {
+            live_tcp(d, &mut rng, k, i);
+        }
     }
     if k < 2 {
         let t = c08::gen_tcp(&mut rng, k);
